@@ -31,6 +31,18 @@ fn mk(kind: MKind) -> MatchKind {
 }
 
 std::thread_local! {
+    /// How `stream_find` consumes the iterator (see `StreamScenario::drive`; harness state only).
+    static DRIVE: std::cell::Cell<u8> = const { std::cell::Cell::new(0) };
+}
+
+pub fn set_drive(d: u8) {
+    DRIVE.with(|v| v.set(d));
+}
+
+/// Marker payload: the consumer asked to stop while a `for_each` was in progress.
+pub struct StopDrive;
+
+std::thread_local! {
     /// Whether automaton-surface stream operations go through `<&A as Automaton>`
     /// (set from the scenario's options by `build`; harness state only).
     static VIA_REF: std::cell::Cell<bool> = const { std::cell::Cell::new(false) };
@@ -148,12 +160,32 @@ impl Sut {
     ) -> Result<(), String> {
         macro_rules! drive {
             ($it:expr) => {{
+                #[allow(unused_mut)]
                 let mut it = $it;
-                loop {
-                    let item = it.next();
-                    if !f(item) {
-                        break;
+                match DRIVE.with(|v| v.get()) {
+                    1 => {
+                        // (cannot stop early; a stop request - only budgets do that - unwinds)
+                        // by value: `(&mut it).for_each` would go through `next()` and
+                        // bypass a `fold` / `for_each` the library may have specialised
+                        it.for_each(|item| {
+                            if !f(Some(item)) {
+                                std::panic::panic_any(StopDrive);
+                            }
+                        });
+                        f(None);
                     }
+                    2 => loop {
+                        let item = it.nth(0);
+                        if !f(item) {
+                            break;
+                        }
+                    },
+                    _ => loop {
+                        let item = it.next();
+                        if !f(item) {
+                            break;
+                        }
+                    },
                 }
                 Ok(())
             }};
@@ -186,6 +218,26 @@ impl Sut {
                         Ok(it) => drive!(it),
                     }
                 }
+            }),
+        }
+    }
+
+    /// `count()` and `last()` of a stream find iterator (two readers: each consumes one).
+    pub fn stream_count_last<R: io::Read>(
+        &self,
+        rdr_count: R,
+        rdr_last: R,
+    ) -> Result<(usize, Option<io::Result<Match>>), String> {
+        match self {
+            Sut::Top(ac) => {
+                let n = ac.try_stream_find_iter(rdr_count).map_err(|e| e.to_string())?.count();
+                let l = ac.try_stream_find_iter(rdr_last).map_err(|e| e.to_string())?.last();
+                Ok((n, l))
+            }
+            _ => on_aut!(self, a => {
+                let n = a.try_stream_find_iter(rdr_count).map_err(|e| e.to_string())?.count();
+                let l = a.try_stream_find_iter(rdr_last).map_err(|e| e.to_string())?.last();
+                Ok((n, l))
             }),
         }
     }
